@@ -88,6 +88,38 @@ static inline _Bool verif_imm_eq(const void *x, const void *k) {
 #endif
 #endif
 
+/* R14: header accesses go through a struct that holds only the header (the same declarations as the
+   head of struct sexp_struct, hence the same layout).  Every kit object starts with this struct, so
+   `x->tag`, `x->markedp` and the flag bit-fields become exact member accesses.  Accessed through
+   struct sexp_struct they are byte-level updates of the whole object for cbmc (observed: after one
+   bit-field store no field of the object stayed a symex constant, and a bit stored through a pointer
+   into the middle of an aggregate was read back inconsistently). */
+struct kit_f_hdr { sexp_tag_t tag; char markedp; unsigned int immutablep:1; unsigned int freep:1;
+  unsigned int brokenp:1; unsigned int syntacticp:1; unsigned int copyonwritep:1; };
+_Static_assert(sizeof(struct kit_f_hdr) == offsetof(struct sexp_struct, value), "header is one word");
+_Static_assert(offsetof(struct kit_f_hdr, markedp) == offsetof(struct sexp_struct, markedp), "mark byte offset");
+#ifndef KIT_NATIVE
+#define VERIF_HDR(x) ((struct kit_f_hdr*)(x))
+#undef sexp_pointer_tag
+#undef sexp_markedp
+#undef sexp_immutablep
+#undef sexp_mutablep
+#undef sexp_freep
+#undef sexp_brokenp
+#undef sexp_copy_on_writep
+#define sexp_pointer_tag(x)    (VERIF_HDR(x)->tag)
+#define sexp_markedp(x)        (VERIF_HDR(x)->markedp)
+#define sexp_immutablep(x)     (VERIF_HDR(x)->immutablep)
+#define sexp_mutablep(x)       (!VERIF_HDR(x)->immutablep)
+#define sexp_freep(x)          (VERIF_HDR(x)->freep)
+#define sexp_brokenp(x)        (VERIF_HDR(x)->brokenp)
+#define sexp_copy_on_writep(x) (VERIF_HDR(x)->copyonwritep)
+#undef sexp_env_cell_syntactic_p
+#undef sexp_env_syntactic_p
+#define sexp_env_cell_syntactic_p(x) (VERIF_HDR(x)->syntacticp)
+#define sexp_env_syntactic_p(x)      (VERIF_HDR(x)->syntacticp)
+#endif
+
 /* header fields: tag and the bit-field word */
 #define VERIF_HDR_BYTES (offsetof(struct sexp_struct, value))
 #endif
